@@ -190,6 +190,34 @@ def run_tlapm(module, deps=(), timeout=900):
     return int(m.group(1))
 
 
+def run_apalache(module, deps=(), init="Init", inv="Inv", next_="Next", length=1, cinit=None, timeout=600):
+    """Bounded symbolic check of spec/<module>.tla with Apalache in a scratch copy: from every state satisfying `init`, `inv`
+    holds in all states reachable in at most `length` steps of `next_`.  Used for inductive invariants (init = the invariant
+    over arbitrary states, length 1).  Returns True (no error), False (a counterexample exists); raises Infra on anything else.
+    Like a proof, this is a statement about the specification, never a verdict about the implementation."""
+    d = tempfile.mkdtemp(prefix="apalache-", dir=scratch())
+    for f in (module,) + tuple(deps):
+        shutil.copy(os.path.join(SPEC, f + ".tla"), d)
+    cmd = ["apalache-mc", "check", "--init=" + init, "--inv=" + inv, "--next=" + next_, "--length=%d" % length,
+           "--out-dir=" + os.path.join(d, "out"), "--run-dir=" + os.path.join(d, "run")]
+    if cinit:
+        cmd.append("--cinit=" + cinit)
+    cmd.append(module + ".tla")
+    env = dict(os.environ, JAVA_TOOL_OPTIONS="-Djava.io.tmpdir=" + d, HOME=d)     # no statistics prompt, no files outside the scratch copy
+    try:
+        p = subprocess.run(cmd, cwd=d, capture_output=True, text=True, timeout=timeout, env=env)
+    except subprocess.TimeoutExpired:
+        raise Infra("apalache timeout after %ds on %s" % (timeout, module))
+    finally:
+        shutil.rmtree(d, ignore_errors=True)
+    out = p.stdout + p.stderr
+    if "The outcome is: NoError" in out and p.returncode == 0:
+        return True
+    if "The outcome is: Error" in out and p.returncode == 12:
+        return False
+    raise Infra("apalache failed on %s (%s, %s):\n%s" % (module, init, inv, out[-2000:]))
+
+
 # ------------------------------------------------------------------ real pipeline
 
 def run_real_full(sessions, nworkers=None, timeout=900):
